@@ -65,6 +65,7 @@ func verifyFunction(ld *Loader, cs *ContractSet, fn *ssa.Function, c *Contract) 
 	var loopMods map[string]map[string]bool
 	var loopAll map[string]bool
 	var loopAllBut map[string]map[string]bool
+	var msgSeed []types.Type
 	allocKinds := map[string]bool{}
 	for pass := 1; pass <= 4; pass++ {
 		g = newGen(ld, cs, fn, c)
@@ -81,6 +82,7 @@ func verifyFunction(ld *Loader, cs *ContractSet, fn *ssa.Function, c *Contract) 
 			g.loopMods = loopMods
 			g.loopAll = loopAll
 			g.loopAllBut = loopAllBut
+			g.msgUniSeed = msgSeed
 			for k := range allocKinds {
 				g.allocKinds[k] = true
 			}
@@ -89,6 +91,21 @@ func verifyFunction(ld *Loader, cs *ContractSet, fn *ssa.Function, c *Contract) 
 		g.registerAxioms()
 		runRoot(g, fn, c, u)
 		prevKeys, prevInfo = g.keyOrder, g.keys
+		nseed := len(msgSeed)
+		msgSeed = nil
+		{
+			var ids []int
+			for id := range g.sorts.typeOf {
+				ids = append(ids, id)
+			}
+			sort.Ints(ids)
+			for _, id := range ids {
+				if _, ok := isMsgStructPtr(g.sorts.typeOf[id]); ok {
+					msgSeed = append(msgSeed, g.sorts.typeOf[id])
+				}
+			}
+		}
+		seedGrew := len(msgSeed) != nseed
 		grew := false
 		for k := range g.allocKinds {
 			if !allocKinds[k] {
@@ -99,7 +116,7 @@ func verifyFunction(ld *Loader, cs *ContractSet, fn *ssa.Function, c *Contract) 
 		if pass > 1 && grew {
 			continue
 		}
-		if pass > 1 && len(g.keyOrder) == nkeys {
+		if pass > 1 && len(g.keyOrder) == nkeys && !seedGrew {
 			break
 		}
 		// loop modification sets are recomputed from this pass
